@@ -320,6 +320,8 @@ def write_evidence(prop, tier, seed, level, coverage, wall, violations, assumpti
 CORE = "MC_RainCore.tla"
 DUR = "MC_RainDur.tla"
 CONC = "MC_RainConc.tla"
+# RainConc with one failing WAL append (results, sticky error, arbitrary group prefixes); one reader
+CONCF = ("MC_RainConcF.tla", ["MC_RainConc_fault.cfg"], ["MC_RainConc_fault.cfg"])
 CONC_TRACE = ("RainConc_Trace.tla", "RainConc_Trace.cfg")
 Q1 = "MC_RainCore_q1.cfg"
 REO = "MC_RainCoreReopen.tla"
@@ -421,9 +423,10 @@ PROPS = {
                    quick=4, thorough=80)]),
     "C08": dict(
         # (the big configuration, about an hour, is part of C02's thorough tier only)
-        design=[(DUR, ["MC_RainDur_small.cfg"], ["MC_RainDur_small.cfg", "MC_RainDur_comp.cfg"])],
+        design=[(DUR, ["MC_RainDur_small.cfg"], ["MC_RainDur_small.cfg", "MC_RainDur_comp.cfg"]), CONCF],
         switches=[("Bug_WriteErrorSwallowed", DUR, "MC_RainDur_small.cfg", "Durable"),
-                  ("Bug_ManifestErrorSwallowed", DUR, "MC_RainDur_small.cfg", None)],
+                  ("Bug_ManifestErrorSwallowed", DUR, "MC_RainDur_small.cfg", None),
+                  ("Bug_FollowersToldOk", CONCF[0], "MC_RainConc_fault.cfg", "OwnResult")],
         work=[dict(driver="fault", args=["--nops", "22", "--positions", "60"], quick=6, thorough=60,
                    one_per_proc=True),
               dict(driver="fault", args=["--nops", "14", "--positions", "40", "--large"], quick=2,
@@ -439,12 +442,14 @@ PROPS = {
               dict(driver="fault", args=["--nops", "18", "--positions", "60", "--read-faults"],
                    quick=3, thorough=30, one_per_proc=True)]),
     "C05": dict(
-        design=[(CONC, ["MC_RainConc_small.cfg"], ["MC_RainConc_small.cfg"]),
+        design=[(CONC, ["MC_RainConc_small.cfg"], ["MC_RainConc_small.cfg", "MC_RainConc_big.cfg"]), CONCF,
                 ("MC_RainCache.tla", ["MC_RainCache_small.cfg"], ["MC_RainCache_big.cfg"])],
         # thorough tier: unbounded number of opens / evictions / reads by an inductive invariant
         apalache=["APA_RainCache.tla"],
         switches=[("Bug_GetLoadsMemAfterUnlock", CONC, "MC_RainConc_small.cfg", "Linearizable"),
                   ("Bug_PublishEarly", CONC, "MC_RainConc_small.cfg", "Linearizable"),
+                  ("Bug_FollowersToldOk", CONCF[0], "MC_RainConc_fault.cfg", "OwnResult"),
+                  ("Bug_RejectedFollowerDone", CONCF[0], "MC_RainConc_fault.cfg", "OwnResult"),
                   ("Bug_NewIdNotAtomic", "MC_RainCache.tla", "MC_RainCache_small.cfg", "UniqueIds"),
                   ("Bug_KeyWithoutId", "MC_RainCache.tla", "MC_RainCache_small.cfg", "ReadsRightBlock")],
         trace=CONC_TRACE,
@@ -459,10 +464,11 @@ PROPS = {
         work=[dict(driver="sched", args=["--all"], quick=2, thorough=12, final_rc3=True),
               dict(driver="sched", gen="tlc", args=[], quick=150, thorough=4000, final_rc3=True)]),
     "C09": dict(
-        design=[(CONC, ["MC_RainConc_small.cfg"], ["MC_RainConc_small.cfg"]),
+        design=[(CONC, ["MC_RainConc_small.cfg"], ["MC_RainConc_small.cfg"]), CONCF,
                 ("MC_RainManual.tla", ["MC_RainManual.cfg"], ["MC_RainManual.cfg", "MC_RainManual_big.cfg"]),
                 ("MC_RainRoom.tla", ["MC_RainRoom.cfg"], ["MC_RainRoom.cfg", "MC_RainRoom_big.cfg"])],
         switches=[("Bug_NoNotify", CONC, "MC_RainConc_small.cfg", "AllWritersReturn"),
+                  ("Bug_FailedRoomStaysQueued", CONCF[0], "MC_RainConc_fault.cfg", "AllWritersReturn"),
                   ("Bug_HoldRequestAcrossMerge", "MC_RainManual.tla", "MC_RainManual.cfg", "Deadlock"),
                   ("Bug_NotifyOne", "MC_RainManual.tla", "MC_RainManual.cfg", "NoLostWaiter"),
                   ("Bug_NoRescheduleAtEnd", "MC_RainManual.tla", "MC_RainManual.cfg", "NoLostWaiter"),
